@@ -2,7 +2,7 @@
    paths.  std::path's component splitting and PathBuf::push are modelled by the
    executable definitions below (trusted; compared with the real ones on every run). *)
 From ASModel Require Import Base.
-Open Scope string_scope.
+Local Open Scope string_scope.
 
 Inductive comp := CRoot | CCur | CParent | CNormal (s : string).
 
